@@ -2,7 +2,7 @@
    Only theorem statements closed by `exact` (or a one-line combination), each followed by
    Print Assumptions; plus the non-vacuity examples and the refutation witness of F6. *)
 From Snax Require Import Base.Prelude Model.Tsl Model.C05Copy Proofs.TslProofs
-  Proofs.C05MemProofs Proofs.C05MainProofs Proofs.C05ExtraProofs Model.C05Dyn Proofs.C05DynProofs Proofs.C05DynCopyProofs
+  Proofs.C05MemProofs Proofs.C05MainProofs Proofs.C05ExtraProofs Model.TslOps Model.C05Dyn Proofs.C05DynProofs Proofs.C05DynCopyProofs Proofs.C05DynGenProofs
   Proofs.C05AuditProofs.
 
 (* For all ranks, tile depths, shapes, static layouts with positive bounds and equal tile bounds,
@@ -127,6 +127,70 @@ Example C05_dynamic_nonvacuous :
   lower_dyn src dst 2 [12] None None = Some (CDma2 (0, []) (4, []) 8 8 16 3).
 Proof. repeat split; try reflexivity. discriminate. Qed.
 Print Assumptions C05_dynamic_nonvacuous.
+
+(* DYNAMIC sizes, strides and offsets resolved at run time (general form; C05_copy_dynamic_partial is the
+   instance with static steps and offsets): src/dst are ANY layouts (dynamic bounds, `?` steps resolved by
+   the TSL contiguity rule or by strided metadata, dynamic offsets), rshape/smd/dmd ANY run-time
+   descriptor; rs/rd are the static layouts that the emitted run-time ops compute for them
+   (bound_vals, step_vals_md, off_val = `resolves`).  If the inner tiles divide the run-time sizes
+   (rshape = shape_of rs), Safe_lccb holds for the resolved layouts and the common block and the
+   value-membership tests do not depend on the dynamic entries (two decidable equalities; the first one
+   excludes class F29, C05_dynamic_general_excludes_F29), the code of lower_dyn moves every element of the
+   resolved layouts.  Classes F27/F28 are the cases where the resolution the code computes is not the
+   intended contiguous layout (there rd self-overlaps and the hypothesis fails). *)
+Theorem C05_copy_dynamic_general :
+  forall (src dst rs rd : layout) (el so do_ : Z) (rshape : list Z) (smd dmd : rtmd),
+    layout_okb rs = true -> layout_okb rd = true -> equal_tile_bounds rs rd = true ->
+    safe_lccb rs rd = true -> 0 < el -> rshape <> [] ->
+    bound_vals (tstrides src) rshape = Some (map (map sbnd) (tstrides rs)) ->
+    resolves src rshape el smd (map sbnd (all_strides rs)) rs ->
+    resolves dst rshape el dmd (map sbnd (all_strides rs)) rd ->
+    offset rs = Some so -> offset rd = Some do_ ->
+    length (all_strides src) = length (all_strides dst) ->
+    rshape = shape_of rs ->
+    lccb src dst 1 = lccb rs rd 1 ->
+    map (fun s => value_in s (lccb rs rd 1)) (all_strides src) =
+    map (fun s => value_in s (lccb rs rd 1)) (all_strides rs) ->
+    self_overlaps rd = false ->
+    exists c, lower_dyn src dst el rshape smd dmd = Some c /\
+      forall ps pd, disjoint_footprints rs rd el ps pd (shape_of rs) ->
+      forall (m : mem) (idx : list Z) (k : Z), In idx (row_major (shape_of rs)) -> 0 <= k < el ->
+        run ps pd c m (pd + elem_addr rd el idx + k) = m (ps + elem_addr rs el idx + k).
+Proof.
+  intros src dst rs rd el so do_ rshape smd dmd Hs Hd Hetb Hsafe Hel Hrank Hbv Hr1 Hr2 Hso Hdo Hlen Hsh Hl Hv Hov.
+  apply layout_okb_ok in Hs, Hd.
+  destruct (copy_dynamic_general_sec src dst rs rd el so do_ rshape smd dmd Hs Hd Hetb Hsafe Hel Hrank Hbv Hr1 Hr2
+              Hso Hdo Hlen Hsh Hl Hv) as [c [Hc H]].
+  exists c. split; [exact Hc|]. intros ps pd. apply H. exact (self_overlaps_inj rs rd Hd Hetb Hov).
+Qed.
+Print Assumptions C05_copy_dynamic_general.
+
+Theorem C05_dynamic_general_excludes_F29 :
+  forall src dst rs rd, layout_okb rs = true -> lccb src dst 1 = lccb rs rd 1 -> dyn_in_block src dst = false.
+Proof. intros src dst rs rd H. apply layout_okb_ok in H. exact (dyn_in_block_off src dst rs rd H). Qed.
+Print Assumptions C05_dynamic_general_excludes_F29.
+
+(* non-vacuity: a ?x4 strided<[?, 1], offset: ?> source (run-time strides [6, 1], offset 3: padded rows) copied
+   to the TSL [?] -> (4), [4] -> (1); 3 rows at run time: the row stride comes from the metadata *)
+Example C05_dynamic_general_nonvacuous :
+  let src := mkLayout [[(None, None)]; [(Some 1, Some 4)]] None in
+  let dst := mkLayout [[(Some 4, None)]; [(Some 1, Some 4)]] (Some 0) in
+  let rs := mkLayout [[(Some 6, Some 3)]; [(Some 1, Some 4)]] (Some 3) in
+  let rd := mkLayout [[(Some 4, Some 3)]; [(Some 1, Some 4)]] (Some 0) in
+  let smd : rtmd := Some ([6; 1], 3) in
+  layout_okb rs = true /\ layout_okb rd = true /\ equal_tile_bounds rs rd = true /\ safe_lccb rs rd = true /\
+  bound_vals (tstrides src) [3; 4] = Some (map (map sbnd) (tstrides rs)) /\
+  step_vals_md src (map sbnd (all_strides rs)) 2 smd = map (fun s => sstp s * 2) (all_strides rs) /\
+  off_val src smd = offset rs /\
+  step_vals_md dst (map sbnd (all_strides rs)) 2 None = map (fun s => sstp s * 2) (all_strides rd) /\
+  off_val dst None = offset rd /\
+  [3; 4] = shape_of rs /\ lccb src dst 1 = lccb rs rd 1 /\
+  map (fun s => value_in s (lccb rs rd 1)) (all_strides src) = map (fun s => value_in s (lccb rs rd 1)) (all_strides rs) /\
+  self_overlaps rd = false /\
+  lower_dyn src dst 2 [3; 4] smd None = Some (CDma2 (6, []) (0, []) 8 12 8 3).
+Proof. repeat split; reflexivity. Qed.
+Print Assumptions C05_dynamic_general_nonvacuous.
+
 
 (* ---- the dynamic finding classes F27-F29 (Model/C05Dyn.v; the search classifies failures with them) --- *)
 (* none of them holds on the domain of C05_copy_dynamic_partial: a failure there is never a known finding *)
